@@ -1126,6 +1126,31 @@ func genContainer(r *Rand, g GenCfg) Plan {
 	p := &ContainerPlan{}
 	p.Cast = genCast(r, g.Tier, 2, 5)
 	n := []int{0, 1, 2, 2, 3, 4, 6, 8, 17, 23, 24, 25, 33, 70, 255, 256, 257}[r.Intn(17)]
+	if g.Index%8 == 6 {
+		// a size sweep: 90 same-shaped tokens whose sealed lengths are consecutive and pass over a
+		// power of two (as section, i.e. with the 36-byte label, and as bare entry): whatever a
+		// writer or reader does with small / aligned / buffer-sized sections, it does for every size
+		centre := Pick(r, []int{512, 1024, 1024, 2048, 4096})
+		p.Cast = nil
+		for i := 0; i < 8; i++ {
+			p.Cast = append(p.Cast, Principal{"ed25519", i})
+		}
+		for i := 0; i < 90; i++ {
+			ts := uniformDlgSpec(i)
+			ts.Dlg.Label = fmt.Sprintf("s%03d", i)
+			pad := centre - 36 - 330 - 45 + i // (a uniform delegation seals to about 330 bytes)
+			if pad < 0 {
+				pad = 0
+			}
+			ts.Dlg.Meta = append(ts.Dlg.Meta, MetaSpec{Key: "pad", V: ptr(vStr(strings.Repeat("p", pad)))})
+			p.Tokens = append(p.Tokens, ts)
+		}
+		p.Steps = []CStep{{Op: "matrix"}}
+		for _, f := range containerAPIs() {
+			p.Steps = append(p.Steps, CStep{Op: "roundtrip", Format: f, WStream: r.Chance(0.5), RStream: r.Chance(0.5), Chunks: []int{Pick(r, []int{1, 7, 512, 1024, 4096})}, Perm: r.Perm(90)})
+		}
+		return p
+	}
 	if n > 8 {
 		// larger sets: cheap same-shaped Ed25519 delegations
 		p.Cast = nil
